@@ -53,7 +53,7 @@ def cells(tier):
             for axis in [None, 0, -1] + ([(0, 1)] if len(shape) == 2 and r not in ("cumsum", "cumprod") else []):
                 for kd in ((False, True) if r not in ("cumsum", "cumprod") else (False,)):
                     yield ("R", r, shape, axis, kd)
-    for m in ("reshape", "transpose", "squeeze", "ravel", "swapaxes", "moveaxis", "expand_dims", "clip", "flatten_vs_ravel", "getitem", "where", "einsum", "T"):
+    for m in ("reshape", "transpose", "squeeze", "ravel", "swapaxes", "moveaxis", "expand_dims", "clip", "flatten_vs_ravel", "getitem", "where", "einsum", "T", "std_pos", "var_pos", "sum_pos", "mean_pos", "max_pos", "prod_pos"):
         yield ("M", m)
     for c in CONST_ONLY:
         for const in (False, True, "first_only", "second_only", "out_only"):
@@ -336,6 +336,14 @@ def check_M(cell):
                  ("minimum(maximum())", sp(lambda t: mg.minimum(mg.maximum(t, -0.5), 0.75)))],
         "getitem": [("x[1]", sp(lambda t: t[1])), ("x[1, :]", sp(lambda t: t[1, :])), ("x[1, ...]", sp(lambda t: t[1, ...])), ("x[-1]", sp(lambda t: t[-1]))],
         "where": [("mg.where", sp(lambda t: mg.where(X > 0, t, 2.0))), ("np.where", sp(lambda t: np.where(X > 0, t, 2.0)))],
+        "std_pos": [("mg.std(x, 0, 1)", sp(lambda t: mg.std(t, 0, 1))), ("np.std(x, axis=0, ddof=1)", sp(lambda t: np.std(t, axis=0, ddof=1))), ("x.std(0, 1)", sp(lambda t: t.std(0, 1))),
+                    ("x.std(axis=0, ddof=1)", sp(lambda t: t.std(axis=0, ddof=1)))],
+        "var_pos": [("mg.var(x, 0, 1, True)", sp(lambda t: mg.var(t, 0, 1, True))), ("np.var(x, axis=0, ddof=1, keepdims=True)", sp(lambda t: np.var(t, axis=0, ddof=1, keepdims=True))),
+                    ("x.var(0, 1, True)", sp(lambda t: t.var(0, 1, True)))],
+        "sum_pos": [("mg.sum(x, 1, True)", sp(lambda t: mg.sum(t, 1, True))), ("x.sum(1, True)", sp(lambda t: t.sum(1, True))), ("np.sum(x, axis=1, keepdims=True)", sp(lambda t: np.sum(t, axis=1, keepdims=True)))],
+        "mean_pos": [("mg.mean(x, 1, True)", sp(lambda t: mg.mean(t, 1, True))), ("x.mean(1, True)", sp(lambda t: t.mean(1, True))), ("np.mean(x, axis=1, keepdims=True)", sp(lambda t: np.mean(t, axis=1, keepdims=True)))],
+        "max_pos": [("mg.max(x, 1, True)", sp(lambda t: mg.max(t, 1, True))), ("x.max(1, True)", sp(lambda t: t.max(1, True))), ("x.max(axis=1, keepdims=True)", sp(lambda t: t.max(axis=1, keepdims=True)))],
+        "prod_pos": [("mg.prod(x, 1, True)", sp(lambda t: mg.prod(t, 1, True))), ("x.prod(1, True)", sp(lambda t: t.prod(1, True))), ("x.prod(axis=1, keepdims=True)", sp(lambda t: t.prod(axis=1, keepdims=True)))],
         "einsum": [("mg.einsum", sp(lambda t: mg.einsum("ij->j", t))), ("np.einsum", sp(lambda t: np.einsum("ij->j", t))), ("sum(axis=0)", sp(lambda t: t.sum(axis=0)))],
     }
     return run_spellings(table[m])
@@ -430,8 +438,8 @@ def check_NO(cell):
         X, Y = np.array([1, 2, -3, 4, 0]), np.array([1, -2, 2, 5, 0])
         sc = 2
     else:
-        X = np.array([1.5, np.nan, -3.0, np.inf, 2.0, np.nan, -0.0, -np.inf], dtype=dt)
-        Y = np.array([1.5, 0.0, np.nan, np.inf, 2.5, np.nan, 0.0, 1.0], dtype=dt)
+        X = np.array([1.5, np.nan, -3.0, np.inf, 2.0, np.nan, -0.0, -np.inf, 0.1], dtype=dt)
+        Y = np.array([1.5, 0.0, np.nan, np.inf, 2.5, np.nan, 0.0, 1.0, 0.1], dtype=dt)
         sc = float("nan")
     f = getattr(operator, o)
     npf = getattr(np, CMP_OPS[o])
@@ -439,7 +447,7 @@ def check_NO(cell):
     def mk(v, k):
         return mg.tensor(v) if k == "t" else mg.tensor(v, constant=True) if k == "tc" else v.copy() if k == "a" else sc
 
-    for scv in ([sc, 2.0, 1.5] if "s" in kinds else [None]):
+    for scv in ([sc, 2.0, 1.5, 0.1] if "s" in kinds else [None]):  # 0.1: not representable in float32; an element equals its rounding
         sc = scv
         a, b = mk(X, kinds[0]), mk(Y, kinds[1])
         ra, rb = (X if kinds[0] != "s" else sc), (Y if kinds[1] != "s" else sc)
